@@ -454,6 +454,8 @@ class Interp:
             return ExtV(a.inf, a.k + b.t if isinstance(op, ast.Add) else a.k - b.t)
         if isinstance(a, StrV) and isinstance(b, StrV) and isinstance(op, ast.Add):
             return sym.str_concat([a, b])
+        if isinstance(a, StrV) and isinstance(b, IntV) and isinstance(op, ast.Mult):
+            return StrV(fresh("repeated", sym.S))
         return self.theory.binop(st, op, a, b)
 
     def ev_Compare(self, st, fr, e):
@@ -926,7 +928,10 @@ class Interp:
         if isinstance(v, ast.Constant):
             return [(st, NORMAL)]  # docstring (dropped)
         if isinstance(v, ast.Call) and isinstance(v.func, ast.Attribute) and isinstance(v.func.value, ast.Name) and v.func.value.id == "log":
-            return [(st, NORMAL)]  # logger call (dropped, assumed effect-free)
+            # logger call: the call itself is dropped (assumed effect-free), but its *arguments* are evaluated eagerly by
+            # Python and may raise - they are executed like any other expression
+            exprs = list(v.args) + [k.value for k in v.keywords]
+            return self._exits(self.ev_seq(st, fr, exprs), lambda s, _vs: [(s, NORMAL)])
         if isinstance(v, ast.Call) and isinstance(v.func, ast.Attribute) and isinstance(v.func.value, ast.Name) and v.func.value.id == "warnings":
             return [(st, NORMAL)]
         return self._exits(self.ev(st, fr, v), lambda s, _v: [(s, NORMAL)])
